@@ -32,7 +32,7 @@ META = {
         "text": "Lean 4 theorems over a symbolic (Dolev-Yao) model of the authentication handshake (M9) for an unbounded number of sessions "
                 "and adversary steps: c20_complete, c20_mismatch, c20_auth (injective agreement on role and this session's challenge), "
                 "c20_no_reflection, c20_role_chal_inj; the whole finite table (24768 rows: keys x roles x protocols x single-message "
-                "substitutions incl. reflection and cross-session replay) is enumerated against the real do_authentication" + CORR,
+                "substitutions incl. reflection and cross-session replay) is enumerated against the real do_authentication; the configurations of the real call sites: c20_sites_refuse_echo / c20_sites_accept_honest, tied by component authhq (real TCP, honest and echoing peers)" + CORR,
         "design_ref": "DESIGN.md 7/C20",
         "note": "trusted: Lean kernel, the symbolic model's premises (unforgeability of orion XChaCha20-Poly1305 sealing, unpredictability of "
                 "secure_rand_bytes), the hand-written model of auth.rs tied by the exhaustive table",
@@ -69,7 +69,7 @@ META = {
         "technique": "Lean 4 proof (step-level and job-layer theorems) + differential correspondence check on a simulated cluster + trace monitors",
     },
     "C07": {
-        "text": 'Lean 4 theorems: the crash-limit decision table stated outright for every limit, loss reason and count (counter +1 exactly on failure losses, fail exactly at the limit, never-restart on any loss, unlimited never), job layer moves exactly Running->Waiting; the running list reported at every worker loss is monitored against the announced starts on every real trace' + CORR,
+        "text": 'Lean 4 theorems: the crash-limit decision table stated outright for every limit, loss reason and count (counter +1 exactly on failure losses, fail exactly at the limit, never-restart on any loss, unlimited never), job layer moves exactly Running->Waiting; the running list reported at every worker loss is monitored against the announced starts on every real trace; connection level: decision table M9 (c07_conn_end_failure) tied to the real worker_rpc_loop over TCP by component rpc' + CORR,
         "design_ref": 'DESIGN.md 7/C07',
         "note": SIMNOTE,
         "technique": "Lean 4 proof (step-level and job-layer theorems) + differential correspondence check on a simulated cluster + trace monitors",
@@ -81,7 +81,7 @@ META = {
         "technique": "Lean 4 proof (step-level and job-layer theorems) + differential correspondence check on a simulated cluster + trace monitors",
     },
     "C09": {
-        "text": 'Lean 4 theorems: no client request (open/close/cancel/forget) makes the job layer panic in a well-formed / reachable state; every panic site of the modelled paths is an explicit outcome of the models and compared step by step; every panic of the real code is caught by the harness and reported with its source function' + CORR,
+        "text": 'Lean 4 theorems: no client request (open/close/cancel/forget) makes the job layer panic in a well-formed / reachable state; every panic site of the modelled paths is an explicit outcome of the models and compared step by step; every panic of the real code is caught by the harness and reported with its source function; PROGRESS theorem for the core model: c09_core_run_no_panic (no modelled panic site is reachable under decidable input side conditions evaluated on every real operation; one exclusion = finding F27), composed partial theorems sys/sysw_run_never_stops_partial; connection ends: c09_conn_end_removes (component rpc, real server over TCP)' + CORR,
         "design_ref": 'DESIGN.md 7/C09',
         "note": SIMNOTE,
         "technique": "Lean 4 proof (step-level and job-layer theorems) + differential correspondence check on a simulated cluster + trace monitors",
@@ -99,7 +99,7 @@ META = {
         "technique": 'Lean 4 proof (exchange argument over optimal MILP solutions on a fragment, induction over queues; decide +kernel counterexamples) + differential correspondence check of batches/variables/weights/rows/taken ids per real scheduling round',
     },
     "C10": {
-        "text": 'Lean 4 theorems over the journal/restore model M5: c10_restore_refines (for every producible journal restore does not stop and jobs, open flags, outcomes, counters equal the spec; every pending task resubmitted once with remaining deps, next instance id and crash count - this covers the restart clauses of C03/C06/C07), c10_prefix / c10_every_crash_point (every record boundary), c10_torn_tail / c10_truncate_append (partial last record)' + CORR,
+        "text": 'Lean 4 theorems over the journal/restore model M5: c10_restore_refines (for every producible journal restore does not stop and jobs, open flags, outcomes, counters equal the spec; every pending task resubmitted once with remaining deps, next instance id and crash count - this covers the restart clauses of C03/C06/C07), c10_prefix / c10_every_crash_point (every record boundary), c10_torn_tail / c10_truncate_append (partial last record); real server sessions through bootstrap::init_hq_server on cut journals (op boot)' + CORR,
         "design_ref": 'DESIGN.md 7/C10',
         "note": 'trusted: Lean kernel, hand-written model of restore.rs/journal read+write tied by the correspondence on real journals written by the real JournalWriter (every record boundary; byte offsets in the thorough tier); bincode/serde encoding of Event assumed deterministic and prefix-free (swept, not proved); fsync/rename/set_len semantics',
         "technique": 'Lean 4 proof (refinement of a short spec, induction over record lists) + differential correspondence check',
@@ -117,21 +117,21 @@ META = {
         "technique": 'Lean 4 proof (per-job/per-queue factorisation of the restorer fold) + differential correspondence check',
     },
     "C17": {
-        "text": 'Lean 4 theorems over the auto-allocation model M6 with a fully adversarial batch system and worker query: c17_limits (inductive invariant: queued <= backlog, sum of targets <= max worker count, 1 <= target <= max per allocation), c17_silent, c17_pause, c17_paused_stays, c17_resume_live (full strength since the fix cdd9fd1), c17_permit_order_independent' + CORR,
+        "text": 'Lean 4 theorems over the auto-allocation model M6 with a fully adversarial batch system and worker query: c17_limits (inductive invariant: queued <= backlog, sum of targets <= max worker count, 1 <= target <= max per allocation), c17_silent, c17_pause, c17_paused_stays, c17_resume_live (full strength since the fix cdd9fd1), c17_permit_order_independent; the worker query: model M10, c17_mn_demand_offered / c17_mn_answers_sound, tied to the real new_worker_query by component query' + CORR,
         "design_ref": 'DESIGN.md 7/C17',
         "note": 'trusted: Lean kernel, hand-written model of autoalloc/{process,state}.rs tied by the correspondence through the real handle_message / perform_submits / do_periodic_update with a scripted QueueHandler and mock clock; the scheduler query answer is an arbitrary input',
         "technique": 'Lean 4 proof (inductive invariant over all event sequences) + differential correspondence check',
     },
     "C18": {
-        "text": 'Lean 4 theorems over M6: c18_monotone (rank never decreases, finished absorbing), c18_announce (at most one Started, exactly one Finished per finished allocation, in order), c18_workers (connected set exact, normal finish exactly when distinct lost workers reach the target), c18_unknown, c18_remove_queue' + CORR,
+        "text": 'Lean 4 theorems over M6: c18_monotone (rank never decreases, finished absorbing), c18_announce (at most one Started, exactly one Finished per finished allocation, in order), c18_workers (connected set exact, normal finish exactly when distinct lost workers reach the target), c18_unknown, c18_remove_queue; the feed of worker notices from the job layer is checked in the simulated cluster (monitor c18.notify)' + CORR,
         "design_ref": 'DESIGN.md 7/C18',
         "note": 'trusted: as C17; c18_announce over whole runs assumes queue ids come from the counter (never reused; C11)',
         "technique": 'Lean 4 proof (inductive invariants over all event sequences) + differential correspondence check',
     },
     "C04": {
-        "text": 'Lean 4 theorems over the allocator model M3 for all descriptors, requests and operation sequences: c04_inv (Conserve - per index free fraction + held fractions = one unit, sums never exceed the size - is an inductive invariant for every allowed choice), c04_exclusive, c04_exact (exactly the requested amount, whole indices first, at most one fractional index last), c04_release, c04_concise' + CORR,
+        "text": 'Lean 4 theorems over the allocator model M3 for all descriptors, requests and operation sequences: c04_inv (Conserve - per index free fraction + held fractions = one unit, sums never exceed the size - is an inductive invariant for every allowed choice), c04_exclusive, c04_exact (exactly the requested amount, whole indices first, at most one fractional index last), c04_release, c04_concise; clause told = held: model M8 (HqModel/Env) and theorems c04_told_only_held, c04_told_values, c04_told_taskset, c04_labels_roundtrip, tied by component env (the real HqTaskLauncher spawns a process per launch, its printed environment is compared)' + CORR,
         "design_ref": 'DESIGN.md 7/C04',
-        "note": 'trusted: Lean kernel, hand-written model of worker/resources/*.rs tied by the correspondence (HiGHS group set and hash-order fraction picks are validated inputs); side condition NoSingletonGroups for c04_release/c04_concise (the normal constructor never builds such pools; the correspondence covers them); env-var rendering in program.rs is glue covered by the worker harness only',
+        "note": 'trusted: Lean kernel, hand-written model of worker/resources/*.rs tied by the correspondence (HiGHS group set and hash-order fraction picks are validated inputs); side condition NoSingletonGroups for c04_release/c04_concise (the normal constructor never builds such pools; the correspondence covers them); the text rendering of variable names and the parse of the printed environment (component env) are in driver / harness',
         "technique": 'Lean 4 proof (inductive invariant over operation sequences) + differential correspondence check',
     },
     "C16": {
